@@ -162,6 +162,23 @@ def install(ex):
             return Agg('Ordering', {}, Int(8, -v.signed_val()))
         return Agg('Ordering', {}, Int(8, z3.simplify(-v.v)))
 
+    @M(r'^(std::cmp::)?Ordering::then_with::<|^(std::cmp::)?Ordering::then$')
+    def ordering_then(ex, c, a):
+        v = a[0].variant
+        if not ex.concretize_bool(ex.binop('Eq', v, Int(8, 0), False)):
+            return a[0]
+        if 'then_with' in c:
+            return _call_fn(ex, a[1], [])
+        return a[1]
+
+    @M(r'^(std::cmp::)?Ordering::(is_lt|is_le|is_gt|is_ge|is_eq|is_ne)$')
+    def ordering_is(ex, c, a):
+        v = a[0].variant
+        k = c.split('::')[-1]
+        z = Int(8, 0)
+        return {'is_lt': lambda: ex.binop('Lt', v, z, True), 'is_le': lambda: ex.binop('Le', v, z, True), 'is_gt': lambda: ex.binop('Gt', v, z, True),
+                'is_ge': lambda: ex.binop('Ge', v, z, True), 'is_eq': lambda: ex.binop('Eq', v, z, False), 'is_ne': lambda: b_not(ex.binop('Eq', v, z, False))}[k]()
+
     @M(r'^<(std::cmp::)?Ordering as PartialEq>::(eq|ne)$')
     def ordering_eq(ex, c, a):
         r = ex.binop('Eq', deref(a[0]).variant, deref(a[1]).variant, False)
@@ -512,6 +529,54 @@ def install(ex):
         lo = b_ite_int(ex.binop('Lt', a[0], a[1], False), a[1], a[0])
         return b_ite_int(ex.binop('Gt', lo, a[2], False), a[2], lo)
 
+    @M(r'^core::bool::<impl bool>::(then|then_some)::<')
+    def bool_then(ex, c, a):
+        if not ex.concretize_bool(ex.tobool(a[0]) if hasattr(ex, 'tobool') else a[0]):
+            return none()
+        if '::then_some::<' in c:
+            return some(a[1])
+        return some(_call_fn(ex, a[1], []))
+
+    @M(r'^<\{closure@[^}]*\} as Fn(Mut|Once)?<\(.*\)>>::call(_mut|_once)?$')
+    def closure_call_direct(ex, c, a):
+        cl = a[0] if c.endswith('call_once') else deref(a[0])
+        tup = a[1]
+        args = [tup.f[i] for i in sorted(tup.f)] if isinstance(tup, Agg) else []
+        return ex.call_closure(cl, args)
+
+    @M(r'^<(Vec|VecDeque)<.*> as From<\[.*; (\d+|N)\]>>::from$|^<(Vec|VecDeque)<.*> as From<(Vec|VecDeque)<.*>>>::from$')
+    def list_from_array(ex, c, a):
+        kind = 'VecDeque' if c.startswith('<VecDeque') else 'Vec'
+        src = a[0]
+        if not isinstance(src, ListV):
+            raise Unsupported('From for ' + repr(src)[:40])
+        return ListV(kind, list(src.items))
+
+    @M(r'^<(Vec|VecDeque)<.*> as From<&(mut )?\[.*\]>>::from$')
+    def list_from_slice(ex, c, a):
+        kind = 'VecDeque' if c.startswith('<VecDeque') else 'Vec'
+        src = deref(a[0])
+        items = src.items if isinstance(src, ListV) else None
+        if items is None:
+            raise Unsupported('From<&[T]> for ' + repr(src)[:40])
+        return ListV(kind, [clone_elem(ex, x, c) for x in items])
+
+    @M(r'^core::slice::<impl \[.*\]>::(copy_from_slice|clone_from_slice)$')
+    def slice_copy_from(ex, c, a):
+        dst, src = deref(a[0]), deref(a[1])
+        if len(dst.items) != len(src.items):
+            raise Panic('source slice length does not match destination slice length', c)
+        for i in range(len(src.items)):
+            dst.items[i] = clone_elem(ex, src.items[i], c)
+        return UNIT
+
+    @M(r'^core::slice::<impl \[.*\]>::fill$')
+    def slice_fill(ex, c, a):
+        dst = deref(a[0])
+        for i in range(len(dst.items)):
+            dst.items[i] = clone_elem(ex, a[1], c)
+        return UNIT
+
     # ------------------------------------------------------------------ mem / default / misc
     @M(r'^std::mem::take::<|^core::mem::take::<')
     def mem_take(ex, c, a):
@@ -523,8 +588,18 @@ def install(ex):
             r.set(ListV(old.kind, []))
         elif isinstance(old, MapV):
             r.set(MapV(old.kind, []))
+        elif isinstance(old, bool) or z3.is_bool(old):
+            r.set(False)
+        elif isinstance(old, Int):
+            r.set(Int(old.w, 0))
+        elif isinstance(old, Agg) and old.ty == 'Option':
+            r.set(none())
         else:
-            raise Unsupported('mem::take of ' + repr(old)[:60])
+            ty = re.search(r'take::<(.*)>$', c)
+            d = ex.resolve(f'<{ty.group(1)} as Default>::default') if ty else None
+            if d is None:
+                raise Unsupported('mem::take of ' + repr(old)[:60])
+            r.set(ex.run(d, []))
         return old
 
     @M(r'^std::mem::swap::<|^core::mem::swap::<')
@@ -734,7 +809,7 @@ def install(ex):
         view = ListV('slice', l.items[s_:e_])
         return Ref({'v': view}, 'v')
 
-    @M(r'^<(Vec<.*>|\[.*\]) as Index<(std::ops::)?(RangeTo|RangeFrom|RangeFull|RangeInclusive|RangeToInclusive)(<usize>)?>>::index$|^<(Vec<.*>|\[.*\]) as IndexMut<(std::ops::)?(Range|RangeTo|RangeFrom|RangeFull)(<usize>)?>>::index_mut$')
+    @M(r'^<(Vec<.*>|\[.*\]) as Index<(std::ops::)?(RangeTo|RangeFrom|RangeFull|RangeInclusive|RangeToInclusive)(<usize>)?>>::index$|^<(Vec<.*>|\[.*\]) as IndexMut<(std::ops::)?(Range|RangeTo|RangeFrom|RangeFull|RangeInclusive|RangeToInclusive)(<usize>)?>>::index_mut$')
     def index_other_ranges(ex, c, a):
         l = deref(a[0])
         r = a[1]
@@ -758,7 +833,9 @@ def install(ex):
         if e_ > n:
             raise Panic('range end index out of range for slice', c)
         if 'index_mut' in c:
-            raise Unsupported('mutable sub-slice')
+            view = ListV('slice')
+            view.items = SubList(l.items, s_, e_)
+            return Ref({'v': view}, 'v')
         view = ListV('slice', l.items[s_:e_])
         return Ref({'v': view}, 'v')
 
@@ -928,6 +1005,40 @@ def install(ex):
         m.items.append((inner.f[1], a[1]))
         return Ref(_PairRef(m.items, len(m.items) - 1), 1)
 
+    @M(r'^(std::collections::hash_map::)?Entry::<.*>::(or_insert_with|or_default|or_insert_with_key)(::<.*)?$')
+    def entry_or_insert_with(ex, c, a):
+        e = a[0]
+        inner = e.f[0]
+        m = inner.f[0].get()
+        if e.variant == 0:
+            return Ref(_PairRef(m.items, inner.f[1]), 1)
+        if 'or_default' in c:
+            vt = split_generic(re.search(r'Entry::<(.*)>::or_default', c).group(1))[-1].strip()
+            v = ex.call(f'<{vt} as Default>::default', [])
+        elif 'or_insert_with_key' in c:
+            h = {'k': inner.f[1]}
+            v = _call_fn(ex, a[1], [Ref(h, 'k')])
+        else:
+            v = _call_fn(ex, a[1], [])
+        m.items.append((inner.f[1], v))
+        return Ref(_PairRef(m.items, len(m.items) - 1), 1)
+
+    @M(r'^(std::collections::hash_map::)?Entry::<.*>::and_modify::<')
+    def entry_and_modify(ex, c, a):
+        e = a[0]
+        if e.variant == 0:
+            inner = e.f[0]
+            _call_fn(ex, a[1], [Ref(_PairRef(inner.f[0].get().items, inner.f[1]), 1)])
+        return e
+
+    @M(r'^(std::collections::hash_map::)?Entry::<.*>::key$')
+    def entry_key(ex, c, a):
+        e = deref(a[0])
+        inner = e.f[0]
+        if e.variant == 0:
+            return Ref(_PairRef(inner.f[0].get().items, inner.f[1]), 0)
+        return Ref(inner.f, 1)
+
     @M(r'^(std::collections::hash_map::)?OccupiedEntry::<.*>::(get|get_mut)$')
     def occupied_get(ex, c, a):
         inner = deref(a[0])
@@ -944,6 +1055,33 @@ def install(ex):
         inner = a[0]
         k, v = inner.f[0].get().items.pop(inner.f[1])
         return v
+
+    @M(r'^(std::collections::hash_map::)?VacantEntry::<.*>::insert$')
+    def std_vacant_insert(ex, c, a):
+        inner = a[0]
+        m = inner.f[0].get()
+        m.items.append((inner.f[1], a[1]))
+        return Ref(_PairRef(m.items, len(m.items) - 1), 1)
+
+    @M(r'^(std::collections::hash_map::)?OccupiedEntry::<.*>::insert$')
+    def std_occupied_insert(ex, c, a):
+        inner = deref(a[0])
+        items = inner.f[0].get().items
+        k, old = items[inner.f[1]]
+        items[inner.f[1]] = (k, a[1])
+        return old
+
+    @M(r'^(std::collections::hash_map::)?OccupiedEntry::<.*>::into_mut$')
+    def std_occupied_into_mut(ex, c, a):
+        inner = a[0]
+        return Ref(_PairRef(inner.f[0].get().items, inner.f[1]), 1)
+
+    @M(r'^(std::collections::hash_map::)?(OccupiedEntry|VacantEntry)::<.*>::key$')
+    def std_entry_inner_key(ex, c, a):
+        inner = deref(a[0])
+        if inner.ty == 'OccupiedEntry':
+            return Ref(_PairRef(inner.f[0].get().items, inner.f[1]), 0)
+        return Ref(inner.f, 1)
 
     @M(r'^HashMap::<.*>::remove::<')
     def hashmap_remove(ex, c, a):
@@ -1272,6 +1410,29 @@ def install(ex):
             if n > 4096:
                 raise Unsupported('range loop bound')
 
+    @M(r'^(std|core)::ops::RangeInclusive::<.*>::into_inner$')
+    def rangeinc_into_inner(ex, c, a):
+        return Agg('tuple', {0: a[0].f[0], 1: a[0].f[1]})
+
+    @M(r'^(std|core)::ops::RangeInclusive::<.*>::is_empty$|^<(std|core)::ops::RangeInclusive<.*> as ExactSizeIterator>::is_empty$')
+    def rangeinc_is_empty(ex, c, a):
+        r = deref(a[0])
+        if r.f[2]:
+            return True
+        return ex.binop('Gt', r.f[0], r.f[1], bool(re.search(r'RangeInclusive(::)?<i', c)))
+
+    @M(r'^(std|core)::ops::Range::<.*>::is_empty$')
+    def range_is_empty(ex, c, a):
+        r = deref(a[0])
+        return ex.binop('Ge', r.f[0], r.f[1], bool(re.search(r'Range::<i', c)))
+
+    @M(r'^(std|core)::ops::Range::<.*>::contains::<')
+    def range_contains(ex, c, a):
+        r = deref(a[0])
+        x = deref(a[1])
+        signed = bool(re.search(r'Range::<i', c))
+        return b_and(ex.binop('Le', r.f[0], x, signed), ex.binop('Lt', x, r.f[1], signed))
+
     @M(r'^(std|core)::ops::RangeInclusive::<.*>::contains::<')
     def rangeinc_contains(ex, c, a):
         r = deref(a[0])
@@ -1409,6 +1570,15 @@ def install(ex):
                 if nx.variant == 0:
                     break
                 l.items.append(deref(nx.f[0]) if src.mode in ('ref', 'mut') and not src.adapt else nx.f[0])
+        elif isinstance(src, Agg) and src.ty == 'Option':
+            if src.variant == 1:
+                l.items.append(src.f[0])
+        elif isinstance(src, Agg) and src.ty in ('Range', 'RangeInclusive'):
+            while True:
+                nx = any_next(ex, src, c)
+                if nx.variant == 0:
+                    break
+                l.items.append(nx.f[0])
         else:
             raise Unsupported('extend from ' + repr(src)[:40])
         return UNIT
@@ -1785,6 +1955,35 @@ class _PairRef:
         self.items[self.i] = tuple(e)
 
 
+class SubList:
+    """write-through window [s, e) of a python list (backing store of a `&mut v[a..b]` view)"""
+
+    def __init__(self, base, s, e):
+        self.base, self.s, self.e = base, s, e
+
+    def __len__(self):
+        return self.e - self.s
+
+    def _ix(self, i):
+        n = self.e - self.s
+        if i < 0:
+            i += n
+        if not 0 <= i < n:
+            raise IndexError(i)
+        return self.s + i
+
+    def __getitem__(self, i):
+        if isinstance(i, slice):
+            return [self.base[self.s + k] for k in range(*i.indices(self.e - self.s))]
+        return self.base[self._ix(i)]
+
+    def __setitem__(self, i, v):
+        self.base[self._ix(i)] = v
+
+    def __iter__(self):
+        return (self.base[k] for k in range(self.s, self.e))
+
+
 def _rangeinc_next(ex, r, signed=False):
     if r.f[2]:
         return none()
@@ -1862,9 +2061,17 @@ def iter_next_val(ex, it):
                 it.adapt = saved
                 if nx.variant == 0:
                     return none()
-                it.inner = ex.call_closure(closure, [nx.f[0]])
-                if not isinstance(it.inner, IterV):
+                inner = ex.call_closure(closure, [nx.f[0]])
+                # the closure returns any IntoIterator: an iterator, a collection by value, a reference to a collection / slice, an Option
+                if isinstance(inner, Ref) and isinstance(inner.get(), ListV):
+                    inner = IterV(inner.get(), 'ref')
+                elif isinstance(inner, ListV):
+                    inner = IterV(inner, 'val')
+                elif isinstance(inner, Agg) and inner.ty == 'Option':
+                    inner = IterV(ListV('Vec', [inner.f[0]] if inner.variant == 1 else []), 'val')
+                if not isinstance(inner, IterV):
                     raise Unsupported('flat_map closure did not return an iterator model')
+                it.inner = inner
             v = iter_next_val(ex, it.inner)
             if v.variant == 0:
                 it.inner = None
